@@ -30,3 +30,19 @@ Theorem C02_macro_layout_range :
   forall dim r i, (0 <= i < dim)%Z -> (0 <= r < 2)%Z -> (0 <= r * dim + i < 2 * dim)%Z.
 Proof. exact macro_layout_range. Qed.
 Print Assumptions C02_macro_layout_range.
+
+(* ---- element tables under facet permutations (Tab.v; TabGen.v regenerated from the source, pinned in props/C01.v) ----
+   For every permutation slot: if the sub-table of slot p holds the values of slot 0 at permuted points (the same
+   function on the facet, the rule's point set being invariant under the facet symmetry), the value the generated
+   code reads from the reduced table is within three table tolerances of the value it replaces.  The hypothesis is
+   needed: Tab.reduction_unsound_without_permutation_structure. *)
+From Coq Require Import Qabs.
+From FFCX Require Import Tab.
+
+Theorem C02_reduced_table_value_within_tolerance_for_every_permutation :
+  forall rtol atol, (0 <= rtol)%Q -> (0 <= atol)%Q ->
+  forall T sigma M p e q d,
+    perm_structure T sigma -> bounded T M -> in_range T p e q d ->
+    (Qabs (val T p e q d - used (reduce rtol atol T) p e q d) <= 3 * (atol + rtol * M) + rtol)%Q.
+Proof. exact reduce_sound_all_perms. Qed.
+Print Assumptions C02_reduced_table_value_within_tolerance_for_every_permutation.
